@@ -47,6 +47,7 @@ class Gen:
         self.producer = {}  # name -> op
         self.used = {}
         self.probe_tags = []
+        self.allow_cast = rng.random() < 0.25  # mixed-precision programs (e.g. float64 model, float32 loss)
         # swarm: every run enables a random subset of the op kinds (many short, diverse runs beat uniform ones)
         self.swarm_off = {k for k in ("scale", "sum", "mean", "sumdim", "reshape", "transpose", "slice", "cat", "stack", "outer", "matmul", "take", "where", "unbind", "split") if rng.random() < 0.3}
 
@@ -153,7 +154,7 @@ class Gen:
         ops = [
             ("unary", 5), ("scale", 1), ("bin", 6), ("lin", 3), ("sum", 1), ("mean", 1), ("sumdim", 1),
             ("reshape", 1), ("transpose", 1), ("slice", 1.5), ("cat", 1), ("stack", 0.7), ("outer", 1),
-            ("matmul", 1.5), ("detach", 30 * self.p_detach), ("take", 1.0), ("where", 0.8),
+            ("matmul", 1.5), ("detach", 30 * self.p_detach), ("take", 1.0), ("where", 0.8), ("cast", 0.5 if self.allow_cast else 0.0),
         ]
         if allow_multi:
             ops += [("unbind", 1), ("split", 0.7)]
@@ -292,6 +293,9 @@ class Gen:
         if kind == "detach":
             x = self.pick(pool)
             return self._emit("detach", [x])
+        if kind == "cast":
+            x = self.pick(pool)
+            return self._emit("cast", [x])
         if kind == "take":
             x = self.pick(pool, lambda n: numel(sh[n]) >= 1)
             if x is None:
